@@ -79,6 +79,72 @@ def walk_ints(struct_real, struct_md, path, fails):
                     fails.append(f'{path}.{n}: enumeration mappings configured {want_m}, metadata {got_m}')
 
 
+SIGNED = {'sint': True, 'senum': True, 'uint': False, 'uenum': False}
+
+
+def yaml_int_expect(ft):
+    """(signed, size, alignment, base, mappings) an integer / enumeration field type node of the *document* states
+    (documented defaults filled in), or None for other classes; arrays are followed to their element type.  Only the
+    spellings the generator emits are handled (no alias, no inheritance: the documents of this check are plain)."""
+    while isinstance(ft, dict) and 'element-field-type' in ft:
+        ft = ft['element-field-type']
+    if not isinstance(ft, dict) or ft.get('class') not in SIGNED:
+        return None
+    size = ft['size']
+    maps = None
+    if ft['class'] in ('uenum', 'senum'):
+        maps = []
+        for lab, rs in (ft.get('mappings') or {}).items():
+            for r in rs:
+                maps.append((lab, r, r) if isinstance(r, int) else (lab, r[0], r[1]))
+        maps = sorted(set(maps))
+    return (SIGNED[ft['class']], size, ft.get('alignment', 8 if size % 8 == 0 else 1),
+            BASES[ft.get('preferred-display-base', 'dec')], maps)
+
+
+def walk_yaml(members, struct_md, path, fails):
+    """user members of a structure of the document against the metadata"""
+    mdm = {n: ty for n, ty, lens in struct_md['members']}
+    for m in members or []:
+        (n, v), = m.items()
+        want = yaml_int_expect(v['field-type'])
+        if want is None:
+            continue
+        ty = mdm.get(n)
+        if ty is None:
+            fails.append(f'{path}.{n}: member missing from the metadata')
+            continue
+        it = ty['int'] if ty['t'] == 'enum' else ty
+        got = (it.get('signed'), it.get('size'), it.get('align'), it.get('base'),
+               sorted(set(ty['maps'])) if ty['t'] == 'enum' else None)
+        if want != got:
+            fails.append(f'{path}.{n}: the document states (signed,size,align,base,mappings) {want}, the metadata {got}')
+
+
+def yaml_members_check(doc, md, fails):
+    tt = doc['trace']['type']
+    dsts = tt['data-stream-types']
+    for dn, d in dsts.items():
+        # the stream block of this data stream type: IDs are ranks of the sorted names
+        sid = sorted(dsts).index(dn)
+        sm = [s for s in md['streams'] if s.get('id', sid) == sid] if len(md['streams']) > 1 else md['streams']
+        if len(sm) != 1:
+            continue
+        walk_yaml(d.get('packet-context-field-type-extra-members'), sm[0]['packet.context'], f'{dn}.packet.context', fails)
+        cc = d.get('event-record-common-context-field-type')
+        if cc and 'event.context' in sm[0]:
+            walk_yaml(cc.get('members'), sm[0]['event.context'], f'{dn}.event.context', fails)
+        for en, e in d['event-record-types'].items():
+            em = [x for x in md['events'] if x['name'] == en and (len(md['streams']) == 1 or x.get('stream_id', sid) == sid)]
+            if len(em) != 1:
+                continue
+            sc, pl = e.get('specific-context-field-type'), e.get('payload-field-type')
+            if sc and em[0].get('context'):
+                walk_yaml(sc.get('members'), em[0]['context'], f'{en}.context', fails)
+            if pl and em[0].get('fields'):
+                walk_yaml(pl.get('members'), em[0]['fields'], f'{en}.fields', fails)
+
+
 def oracle(cfg, md_text, yaml_text=None):
     fails = []
     try:
@@ -142,6 +208,12 @@ def oracle(cfg, md_text, yaml_text=None):
                 walk_ints(ert.payload_field_type, e['fields'], f'{ert.name}.fields', fails)
     if tt._pkt_header_ft is not None and 'packet.header' in tr:
         walk_ints(tt._pkt_header_ft, tr['packet.header'], 'packet.header', fails)
+    # the same attributes as the *document* states them (the configuration object is built by the code under test)
+    if yaml_text is not None:
+        try:
+            yaml_members_check(yaml.safe_load(yaml_text.split('\n', 1)[1]), md, fails)
+        except (KeyError, TypeError, ValueError) as ex:     # a document shape this reference does not handle
+            fails.append(f'reference derivation from the document failed: {ex!r}')
     return fails, md
 
 
